@@ -2,6 +2,7 @@ package main
 
 import (
 	"fmt"
+	"go/constant"
 	"go/types"
 	"strings"
 )
@@ -169,6 +170,35 @@ func (E *Engine) genSpanContracts() {
 	}
 }
 
+// genConsts: every package-level integer constant of the module as an SMT constant.
+func (E *Engine) genConsts() string {
+	var b strings.Builder
+	seen := map[string]bool{}
+	for _, pn := range []string{"parser", "pql"} {
+		sp := E.P.SSA[pn]
+		if sp == nil {
+			continue
+		}
+		sc := sp.Pkg.Scope()
+		for _, n := range sc.Names() {
+			c, ok := sc.Lookup(n).(*types.Const)
+			if !ok || seen[n] {
+				continue
+			}
+			if c.Val().Kind() != constant.Int {
+				continue
+			}
+			seen[n] = true
+			v := c.Val().ExactString()
+			if strings.HasPrefix(v, "-") {
+				v = "(- " + v[1:] + ")"
+			}
+			fmt.Fprintf(&b, "(define-fun %s () Int %s)\n", n, v)
+		}
+	}
+	return b.String()
+}
+
 func (E *Engine) registerGenerated() {
 	add := func(name, text string, uses ...string) {
 		forms, err := parseSX(text)
@@ -190,6 +220,7 @@ func (E *Engine) registerGenerated() {
 	E.Spec.Funs["spanSafeLocal"] = SpecFun{Name: "spanSafeLocal", Args: []string{"Node"}, Ret: "Bool"}
 	E.Spec.Funs["height"] = SpecFun{Name: "height", Args: []string{"Node"}, Ret: "Int"}
 	E.Spec.Funs["lheight"] = SpecFun{Name: "lheight", Args: []string{"Seq_Node"}, Ret: "Int"}
+	add("consts", E.genConsts())
 	add("height", E.genHeight())
 	add("spanof", E.genSpanOf())
 	E.genSpanContracts()
